@@ -67,6 +67,50 @@ theorem c05_intern_order_free {σ : Type} [DecidableEq σ] (L : Layout σ Nat) (
   rw [c05_lookup_only L]
   exact den_internAllP reqs [] AMap.empty (fun k => by simp [AMap.empty, idxOf?])
 
+/-- Corollary: the interned table never contains a string twice. -/
+theorem c05_intern_table_nodup {σ : Type} [DecidableEq σ] (L : Layout σ Nat) (reqs : List σ) :
+    (exec L (internAllP [] reqs)).2.Nodup := by
+  rw [(c05_intern_order_free L reqs).1]
+  exact dedupFirstSeen_nodup reqs
+
+/-- **`PouIdMap` and the POU emission order** (mechanism "ordered iteration via IndexMap").  Under
+every layout of the five id maps, the emitted POU index lists programs, function blocks,
+functions, classes, function-block methods and class methods in the iteration order of the
+runtime's `IndexMap`s, and the id of every POU is its position in that allocation order.
+Hypotheses: no two POUs share a normalised key in the same map, and fewer than 2^32 POUs (the
+`u32` id counter saturates beyond). -/
+theorem c05_pou_index_closed_form (L : Layout PouKey Nat) (norm : String → String) (r : PouNames)
+    (hnd : (allKeys norm r).Nodup) (hlen : (allKeys norm r).length ≤ u32Max) :
+    exec L (pouIndexP norm r) = rowsPure norm r (fun m k => idxOf? (m, k) (allKeys norm r)) := by
+  rw [c05_lookup_only L]
+  exact den_pouIndexP norm r hnd hlen
+
+/-- Non-vacuity: a runtime with two programs, a function block with two methods, a function and
+a class with one method satisfies the hypotheses, and the ids are 0,1 | 2 | 3 | 4 | 5,6 | 7. -/
+example :
+    let r : PouNames := { programs := ["Main", "Aux"], functionBlocks := [("Fb", ["M1", "M2"])],
+                          functions := ["F"], classes := [("C", ["G"])] }
+    exec (Layout.spin 3) (pouIndexP id r) =
+      [⟨0, "Main", some 0, none⟩, ⟨0, "Aux", some 1, none⟩, ⟨1, "Fb", some 2, none⟩, ⟨2, "F", some 3, none⟩,
+       ⟨3, "C", some 4, none⟩, ⟨4, "M1", some 5, some 2⟩, ⟨4, "M2", some 6, some 2⟩, ⟨4, "G", some 7, some 4⟩] := by
+  decide
+
+/-- **Vtable layout** (`method_table_for` with its `method_tables` cache and the local
+`name_to_slot` maps) does not depend on the layout of those maps. -/
+theorem c05_vtable_order_free (L₁ L₂ : Layout String VtVal) (norm : String → String)
+    (classLike : String → Option (Option String × List String))
+    (methodId : String → String → Option Nat) (fuel : Nat) (owners : List String) :
+    exec L₁ (methodTablesP norm classLike methodId fuel owners) =
+      exec L₂ (methodTablesP norm classLike methodId fuel owners) :=
+  c05_lookup_only_pair L₁ L₂ _
+
+/-- **FOR-loop temporaries** (`alloc_for_temp_pairs` / `unique_temp_name` with the `used`
+HashSet): the chosen names do not depend on the layout of the set. -/
+theorem c05_temp_pairs_order_free (L₁ L₂ : Layout String Unit) (norm : String → String)
+    (existing : List String) (count : Nat) :
+    exec L₁ (allocForTempPairsP norm existing count) = exec L₂ (allocForTempPairsP norm existing count) :=
+  c05_lookup_only_pair L₁ L₂ _
+
 /-- Every operation that the anchored Rust files apply to a `std` `HashMap`/`HashSet` binding is
 order-free (table regenerated from the sources by `checks/c05_scan.py` on every run).  An added
 `.iter()/.keys()/.values()/.drain()/for … in`/unrecognised use breaks this proof and the failing
